@@ -89,6 +89,8 @@ pub enum Wrong {
     HeaderFlip { bit: usize },
     KeyFlip { bit: usize },
     Garbage { len: usize, kind: u8 },
+    /// the genuine next packet, but the caller's message buffer is k bytes too short (classic pull)
+    ShortBuffer { k: usize },
 }
 
 impl Wrong {
@@ -111,6 +113,7 @@ impl Wrong {
             Wrong::HeaderFlip { .. } => "flip.header",
             Wrong::KeyFlip { .. } => "flip.key",
             Wrong::Garbage { .. } => "garbage",
+            Wrong::ShortBuffer { .. } => "short.buffer",
         }
     }
 }
@@ -278,13 +281,17 @@ impl StreamWorld {
     }
 
     fn do_pull(rx: &mut Rx, flavour: RxFlavour, ct: &[u8], ad: Option<&[u8]>) -> PullObs {
+        Self::do_pull_short(rx, flavour, ct, ad, 0)
+    }
+
+    fn do_pull_short(rx: &mut Rx, flavour: RxFlavour, ct: &[u8], ad: Option<&[u8]>, shortfall: usize) -> PullObs {
         let mut c17 = None;
         let mut err_text: Option<String> = None;
         crate::kit::alloc::arm();
         let r = guarded(|| -> Option<(Vec<u8>, u8)> {
             match (rx, flavour) {
                 (Rx::Classic(s), _) => {
-                    let mut m = vec![SENTINEL; ct.len().saturating_sub(17)];
+                    let mut m = vec![SENTINEL; ct.len().saturating_sub(17).saturating_sub(shortfall)];
                     let before = m.clone();
                     let mut tag = TAG_SENTINEL;
                     let r = ss::crypto_secretstream_xchacha20poly1305_pull(s, &mut m, &mut tag, ct, ad);
@@ -603,7 +610,8 @@ impl World for StreamWorld {
             // weights per kind index
             let w = |name: &str| -> u32 {
                 match (prop, name) {
-                    ("C02", "replay") | ("C02", "skip") | ("C02", "foreign") | ("C02", "garbage") | ("C02", "adpresence") => 0,
+                    ("C02", "replay") | ("C02", "skip") | ("C02", "foreign") | ("C02", "garbage") | ("C02", "adpresence") | ("C02", "shortbuf") | ("C17", "shortbuf") => 0,
+                    (_, "shortbuf") => 4,
                     ("C02", _) => 10,
                     ("C04", "garbage") | ("C04", "truncate") => 30,
                     ("C04", _) => 4,
@@ -614,7 +622,7 @@ impl World for StreamWorld {
                     _ => 10,
                 }
             };
-            let names = ["replay", "skip", "foreign", "adflip", "adtrunc", "adext", "adpresence", "flip", "truncate", "extend", "header", "key", "garbage"];
+            let names = ["replay", "skip", "foreign", "adflip", "adtrunc", "adext", "adpresence", "flip", "truncate", "extend", "header", "key", "garbage", "shortbuf"];
             for n in names.iter() {
                 let mut ww = w(n);
                 if *n == "replay" && self.delivered.is_empty() {
@@ -624,6 +632,9 @@ impl World for StreamWorld {
                     ww = 0;
                 }
                 if (*n == "adflip" || *n == "adtrunc") && adlen == 0 {
+                    ww = 0;
+                }
+                if *n == "shortbuf" && (!matches!(self.rx, Rx::Classic(_)) || clen <= 17) {
                     ww = 0;
                 }
                 if (*n == "header" || *n == "key") && (!self.delivered.is_empty() || !matches!(self.items.first(), Some(Item::Packet(_)))) {
@@ -651,6 +662,7 @@ impl World for StreamWorld {
                 "extend" => Wrong::Extend { k: 1 + rng.usize_below(33), fill: rng.below(256) as u8 },
                 "header" => Wrong::HeaderFlip { bit: rng.usize_below(192) },
                 "key" => Wrong::KeyFlip { bit: rng.usize_below(256) },
+                "shortbuf" => Wrong::ShortBuffer { k: 1 + rng.usize_below((clen - 17).max(1)) },
                 _ => Wrong::Garbage { len: rng.usize_below(2 * 17 + 65), kind: rng.below(9) as u8 },
             };
             return Some(Event::DeliverWrong { kind });
@@ -757,6 +769,7 @@ impl World for StreamWorld {
                 let mut ad = next.ad.clone();
                 let mut fresh_rx: Option<Rx> = None;
                 let mut fired = true;
+                let mut shortfall = 0usize;
                 let flipbit = |buf: &mut [u8], bit: usize| -> bool {
                     if buf.is_empty() {
                         return false;
@@ -859,6 +872,14 @@ impl World for StreamWorld {
                             });
                         }
                     }
+                    Wrong::ShortBuffer { k } => {
+                        // only the classic function takes a caller-sized buffer
+                        if !matches!(self.rx, Rx::Classic(_)) || ct.len() <= 17 {
+                            fired = false;
+                        } else {
+                            shortfall = (*k).clamp(1, ct.len() - 17);
+                        }
+                    }
                     Wrong::Garbage { len, kind } => {
                         ct = match kind % 3 {
                             0 => vec![0u8; *len],
@@ -873,16 +894,30 @@ impl World for StreamWorld {
                 out.fault(kind.kind());
                 out.shape(&format!("W{}", kind.kind()));
                 let eff = |a: &Option<Vec<u8>>| a.clone().unwrap_or_default();
-                let identical = fresh_rx.is_none() && ct == next.ct && eff(&ad) == eff(&next.ad);
+                let identical = fresh_rx.is_none() && shortfall == 0 && ct == next.ct && eff(&ad) == eff(&next.ad);
                 let flavour = self.cfg.rx;
                 let rx_before = self.rx.clone();
                 let ref_before = self.ref_rx;
                 let obs = match fresh_rx.as_mut() {
                     Some(f) => Self::do_pull(f, flavour, &ct, ad.as_deref()),
-                    None => Self::do_pull(&mut self.rx, flavour, &ct, ad.as_deref()),
+                    None => Self::do_pull_short(&mut self.rx, flavour, &ct, ad.as_deref(), shortfall),
                 };
                 out.op();
                 self.judge_common(&obs, ct.len(), kind.kind(), out);
+                if shortfall > 0 {
+                    // libsodium has no buffer-length parameter: nothing to compare the verdict with
+                    let accepted = matches!(obs.res, PullResult::Accept(..));
+                    out.note(&format!("deliver next with a buffer {} bytes short -> {}", shortfall, if accepted { "accept" } else { "reject" }));
+                    if accepted {
+                        out.violate("C03", "c03.reject_wrong", site(&[("flavour", flavour.name()), ("kind", kind.kind())]), format!("a pull into a message buffer {} bytes too short was accepted", shortfall));
+                    } else if matches!(obs.res, PullResult::Reject) && (self.rx.parts() != rx_before.parts() || !rx_eq(&self.rx, &rx_before)) {
+                        out.violate("C03", "c03.state_unchanged_on_reject", site(&[("flavour", flavour.name()), ("kind", kind.kind())]), format!("pull state changed across a pull that was refused because the message buffer was {} bytes too short", shortfall));
+                    } else {
+                        out.probe("wrong.rejected.short.buffer");
+                        self.last_reject = Some(kind.kind());
+                    }
+                    return;
+                }
                 self.judge_errtext(&obs, ct.len(), ad.as_ref().map(|a| a.len()).unwrap_or(0), out);
                 out.cell(&format!("wrong|{}|{}|{}|{}", self.cfg.counter.name(), kind.kind(), tag_class(next.tag), flavour.name()));
                 let accepted = matches!(obs.res, PullResult::Accept(..));
